@@ -151,6 +151,16 @@ def step (toks : List String) : IO String := do
   | "cadstep" :: st :: nx :: ts =>
     let r := RV.Cadence.runStep (natOf st) (natOf nx) (ts.map natOf)
     return String.ofList (r.1.map (fun b => if b then '1' else '0')) ++ " " ++ toString r.2
+  | "cadR" :: sg :: iv :: nx :: ts =>
+    -- repaired heartbeat (passed output times skipped)
+    let sign : Float := if sg == "-1" then -1.0 else 1.0
+    let r := RV.Cadence.runR RV.Cadence.floatOpsR sign (RV.floatOfHex iv) (RV.floatOfHex nx) (ts.map RV.floatOfHex)
+    return String.ofList (r.1.map (fun b => if b then '1' else '0')) ++ " " ++ RV.floatToHex r.2
+  | "cadrestartR" :: sg :: pint :: pnx :: iv :: tk :: later =>
+    let sign : Float := if sg == "-1" then -1.0 else 1.0
+    let r := RV.Cadence.restartR RV.Cadence.floatOpsR (fun a b => a != b) sign (RV.floatOfHex pint) (RV.floatOfHex pnx)
+      (RV.floatOfHex iv) (RV.floatOfHex tk) (later.map RV.floatOfHex)
+    return String.ofList (r.1.map (fun b => if b then '1' else '0')) ++ " " ++ RV.floatToHex r.2
   | "cadrestart" :: sg :: pint :: pnx :: iv :: tk :: later =>
     -- restart from a snapshot: persisted (interval, next), the user's interval, boundary of the snapshot, later boundaries
     let sign : Float := if sg == "-1" then -1.0 else 1.0
